@@ -211,4 +211,16 @@ debug_break(void) {
 #endif
 
 
+/* Verification hooks: compiled in only with -DLIBLCB_VERIF (model-based
+ * conformance checking); expands to nothing otherwise. */
+#ifdef LIBLCB_VERIF
+void liblcb_verif_point(const char *label, const void *a, const void *b,
+	    uintptr_t val);
+#	define LIBLCB_VERIF_POINT(__label, __a, __b, __val)		\
+	    liblcb_verif_point((__label), (const void*)(__a),		\
+		(const void*)(__b), (uintptr_t)(__val))
+#else
+#	define LIBLCB_VERIF_POINT(__label, __a, __b, __val)
+#endif
+
 #endif /* __MACRO_HELPERS_H__ */
